@@ -569,6 +569,7 @@ func Build(spec Spec) *Built {
 		if ui == 2 {
 			fa.Rename["m/d0"] = "dzero" // renamed import
 		}
+		var felided *File
 		var fdot *File
 		if ui == 1 {
 			// (package u1 therefore declares no function named like a constructor of d0: it would collide with the dot import)
@@ -730,6 +731,27 @@ func Build(spec Spec) *Built {
 				body = append(body, el, b.stmt("_ = "+x))
 				n, _ := b.FuncNode(u, b.d("viaPub"), false, nil, f, body)
 				f.Decls = append(f.Decls, n)
+			}
+			// a file of its own in which the first use of the type is suppressed by a trailing @ignore: the once-per-file
+			// report has to move to the elided element literal on the next line
+			if spec.Hostile && t.Kind == "struct" && exportedName(t.Name) {
+				if felided == nil {
+					felided = b.NewFile(u, "elided.go")
+				}
+				x := b.v()
+				el := func(txt string) *Line {
+					// (an elided literal spells no reference to the type: nothing for PKGO on these lines)
+					l := b.tl(txt, useT(ULit, t, ""), free(refT(t, SubLit), PKGO))
+					l.Feature = "suppressed-first-use-then-elided-literal"
+					return l
+				}
+				first := b.tl(x+" := []%T{", composite(refT(t, SubLit)))
+				first.Feature = "suppressed-first-use-then-elided-literal"
+				first.Trail = &Ignore{Codes: "TONL01, PKGO01"}
+				n := &Node{Pre: []*Line{first, el("\t{},"), el("\t{F: 1},"), b.line("}")}}
+				fn, _ := b.FuncNode(u, b.d("elided"), false, nil, felided, []*Node{n, b.stmt("_ = " + x)})
+				fn.Pin = felided.Name
+				felided.Decls = append(felided.Decls, fn)
 			}
 			// a file that dot-imports the declaring package: every reference is a bare identifier
 			if fdot != nil && t.Pkg.Path == "m/d0" && exportedName(t.Name) {
